@@ -8,6 +8,7 @@ def check(ctx, replay=None):
     th = ctx.tier == "thorough"
     plan = [
         dict(scope="defects2" if th else "defects", mc=["RejectOK", "DecisionOK", "ValidOK"], mc_maxskips=[255], kw=dict(NSys=3), stride=1, concs=4 if th else 3, expand=1),
+        dict(scope="longdefects", mc=["RejectOK"] if th else None, mc_maxskips=[255], kw=dict(W=8, X32Bit=512, NSys=300), stride=1, concs=2, expand=1),
         dict(scope="rich", mc=["RejectOK"], mc_maxskips=[255], stride=1 if th else 3, concs=2, expand=1),
         dict(scope="many", mc=["RejectOK"], mc_maxskips=[255], stride=1 if th else 10, concs=2, expand=1),
     ]
